@@ -312,6 +312,8 @@ def run(report, index, tier):
                  '(lexpos, lineno, colno) with colno from '
                  'lookup_colno(lineno, lexpos)' % (got, calls),
                  where='asttypes.py:Node.findpos')
+    from .c06 import line_index_rule
+    line_index_rule(report, index, 'R11.6')
     report.not_decided.append(
         'agreement of offset/line/column under ES5 line terminator '
         'counting additionally needs R06.4 (line index updated once per '
